@@ -7,7 +7,7 @@ arithmetic over Q of the code AFTER sigma clipping) and the real classes called 
 `ctx.build_with_translator(..., after_files=[... C11S files ..., 'C11E_Model.v', 'C11E_Proofs.v',
 'C11E_Properties.v'])`:
   * generates `n_cases` lists of small dyadic rationals (n = 1..60: noise with outliers, few distinct
-    values (ties), constants, clusters, MAD = 0 with std != 0, one-off, ramps, lists tuned so that
+    values (ties), constants (dyadic, and full-mantissa ones with n <= 2), clusters, MAD = 0 with std != 0, one-off, ramps, lists tuned so that
     |mean - median|/std is close to SExtractor's 0.3 switch),
   * runs EVERY estimator class on each list through up to three call paths: the 1-D array (axis=None), a
     NaN-padded 2-D array with axis=1 / axis=0 (the vectorised path: np.where / boolean-mask assignment
@@ -23,7 +23,9 @@ arithmetic over Q of the code AFTER sigma clipping) and the real classes called 
     rms(2^k v + b) = 2^k rms(v) (to 2^-40 of the scale), est within [min, max] for mean / median /
     biweight location.
 """
+import hashlib
 import math
+import random
 import warnings
 from fractions import Fraction
 
@@ -36,6 +38,42 @@ COQ_FILES = ['C11E_Model.v', 'C11E_Proofs.v', 'C11E_Properties.v']   # after the
 MADSTD_K = Fraction(1.482602218505602)        # the constant of astropy.stats.mad_std, as the double it is
 MARGIN = Fraction(1, 2**30)
 TOL = Fraction(1, 2**40)
+
+# what the Coq development covers, for the evidence file (ctx.cov['estimator_classes'])
+EVIDENCE = {
+    'model': 'coq/C11E_Model.v: exact arithmetic over Q of calc_background / calc_background_rms after sigma clipping '
+             '(sigma_clip=None path), M=None for the biweight classes; RMS classes as SQUARED statistics',
+    'proved_for_every_class': {
+        'MeanBackground': ['est_affine (any a)', 'est_constant', 'est_within_hull', 'constant_image_exact_mean',
+                           'shift_scale_equivariant_sigma_clip_mean'],
+        'MedianBackground': ['est_affine (a > 0)', 'est_constant', 'est_within_hull', 'constant_image_exact_median',
+                             'shift_scale_equivariant_sigma_clip_median'],
+        'ModeEstimatorBackground': ['est_affine iff median_factor - mean_factor = 1 (general factors: shift picks up '
+                                    '(mf - nf)*b; refuted otherwise)', 'est_constant (same condition)',
+                                    'NOT within hull', 'constant_image_exact_mode', 'shift_scale_equivariant_sigma_clip_mode'],
+        'MMMBackground': ['est_affine', 'est_constant', 'NOT within hull (witness [0,0,1] -> -2/3)',
+                          'constant_image_exact_mmm', 'shift_scale_equivariant_sigma_clip_mmm'],
+        'SExtractorBackground': ['est_affine (std == 0 test and 0.3 switch are scale-free)',
+                                 'est_constant (through the std == 0 branch)', 'NOT within hull (witness 12 x 0, 1)',
+                                 'switch on squares = ratio test', 'constant_image_exact_sextractor',
+                                 'shift_scale_equivariant_sigma_clip_sextractor'],
+        'BiweightLocationBackground': ['est_affine (every c)', 'est_constant (through the MAD == 0 branch)',
+                                       'est_within_hull (every c)', 'quotient defined for c > 1 (c = 1: NaN witness)',
+                                       '|u| >= 1 vs > 1 immaterial', 'constant_image_exact_biweight',
+                                       'shift_scale_equivariant_sigma_clip_biweight'],
+        'StdBackgroundRMS^2': ['rms2_affine (a^2, shift-invariant)', 'rms2_constant (0)', 'rms2_nonneg'],
+        'MADStdBackgroundRMS^2': ['rms2_affine', 'rms2_constant', 'rms2_nonneg', 'MAD affine / non-negative'],
+        'BiweightScaleBackgroundRMS^2': ['rms2_affine (every c)', 'rms2_constant (through mad**2)', 'rms2_nonneg',
+                                         '|u| < 1 vs <= 1 immaterial'],
+    },
+    'still_premises': [
+        'the square root: C11 states its RMS premise for the RMS (scales by k), which is not a function Q -> Q; the '
+        'C11E corollaries take rt : Q -> Q with rt(k^2 x) = k rt(x) and == compatibility (constant image: rt 0 = 0; pure '
+        'shift k = 1: compatibility only) and prove the premise for rt o rms2; the squared statistics scale by k^2 (proved)',
+        'library numerics of C11 (Shepard fill, window median, upscaling) unchanged',
+        'user-supplied M, modify_sample_size, masked arrays, units: not modelled',
+    ],
+}
 
 # (name, code, constructor kwargs, p1, p2)
 BKG_DEFAULTS = [
@@ -150,8 +188,9 @@ def call_axis(est, rows, axis):
 # generators
 # --------------------------------------------------------------------------
 KINDS = ['noise+outliers', 'few-values', 'constant', 'clusters', 'uniform', 'symmetric', 'ramp', 'one-off',
-         'mad0', 'skew', 'sext-near']
-KINDS_W = [8, 5, 2, 3, 4, 2, 2, 2, 3, 4, 7]
+         'mad0', 'skew', 'sext-near', 'constant-full-mantissa']
+KINDS_W = [8, 5, 2, 3, 4, 2, 2, 2, 3, 4, 7, 3]
+FULL_DEN = 2 ** 52
 
 
 def _ratio2(vals):
@@ -178,6 +217,12 @@ def tune_sext(rng, z):
 
 def gen_values(rng):
     kind = rng.choices(KINDS, KINDS_W)[0]
+    if kind == 'constant-full-mantissa':
+        # a constant c in [1, 2) with all 53 mantissa bits in use, n <= 2 (c + c and (c + c)/2 are exact, so the
+        # float mean is c, std and MAD are 0): the special-case branches must return c itself, whereas e.g.
+        # 2.5*c - 1.5*c is rounded
+        z = FULL_DEN + rng.randrange(FULL_DEN) | 1
+        return kind, FULL_DEN, [z] * rng.randint(1, 2)
     n = rng.randint(1, 10) if rng.random() < 0.35 else rng.randint(1, 60)
     den = rng.choice([1, 1, 2, 4, 8, 16])
     off = rng.choice([0, 0, 0, 3, -7, 100, 1000, -250]) * den + rng.randint(0, den - 1)
@@ -243,6 +288,9 @@ LANDMARKS = [   # the measure-zero behaviours named in C11E_Model.v / C11E_Prope
     # (mean - median)^2 = 0.09 * var EXACTLY: marginal for SExtractor (skipped and counted for that class)
     dict(den=1, zs=[0] * 9 + [1] * 13 + [19] * 3),
     dict(den=2, zs=[0] * 17 + [1] * 14 + [18] * 3),
+    # the double 0.1, once and twice: std == 0 / MAD == 0 must return 0.1 itself (2.5*0.1 - 1.5*0.1 does not)
+    dict(den=2 ** 55, zs=[3602879701896397]),
+    dict(den=2 ** 55, zs=[3602879701896397, 3602879701896397]),
 ]
 
 
@@ -315,9 +363,12 @@ def _implementation_relations(ctx, out, rng, c, ents, base):
                               found_input=False)
 
 
-def run_estimator_correspondence(ctx, n_cases):
-    """Returns a dict of counts; disagreements are reported through ctx.violation."""
-    rng = ctx.rng
+def run_estimator_correspondence(ctx, n_cases, rng=None):
+    """Returns a dict of counts; disagreements are reported through ctx.violation.
+    Random choices come from a PRNG derived from ctx.seed (deterministic per seed and tier) unless `rng` is
+    given (e.g. rng=ctx.rng): a derived stream keeps the case stream of the calling C11 harness unchanged."""
+    if rng is None:
+        rng = random.Random(int(hashlib.sha1(f'C11E:{ctx.seed}:{ctx.tier}'.encode()).hexdigest()[:12], 16))
     cases = [dict(c, kind='landmark') for c in LANDMARKS]
     while len(cases) < n_cases:
         kind, den, zs = gen_values(rng)
@@ -394,7 +445,7 @@ def run_estimator_correspondence(ctx, n_cases):
             details.append({'den': den, 'zs': c['zs'], 'kind': c['kind'],
                             'classes': [(n_, kw_, [repr(v) for v in per_list[li][ei]])
                                         for ei, (n_, _, kw_, _, _) in enumerate(ents)]})
-            if rng.random() < 0.5:
+            if rng.random() < 0.5 and den < 2 ** 40:      # (a*v + b is not a double for the full-mantissa constants)
                 _implementation_relations(ctx, out, rng, c, ents, base)
     if kept and len(ctx.cov['samples']) < 8:
         ctx.sample({'estimator_case': details[-1]}, limit=8)
@@ -415,6 +466,12 @@ def run_estimator_correspondence(ctx, n_cases):
         ctx.stat('estimator_totals', k, v)
     ctx.support('estimator_affine_on_implementation', out['affine_runs'])
     ctx.support('estimator_within_hull_on_implementation', out['hull_runs'])
+    ctx.cov['estimator_classes'] = dict(EVIDENCE, correspondence=dict(out))
+    ctx.assumptions.append(
+        'C11E: the estimator classes are tied to their exact-arithmetic model on dyadic samples (n <= 60) to 2^-40 of '
+        'the scale (squares for the RMS classes; exact for the median, zero RMS and the constant-sample branches); '
+        'SExtractor samples with |mean - median|/std within 2^-30 of 0.3 are skipped and counted; the square root is '
+        'a parameter of the C11 corollaries (homogeneity of degree 1/2)')
     return out
 
 
